@@ -31,10 +31,8 @@ def histories_from(ctx, cfg, **kw):
 
 def references(ops, procs):
     import eng_engine as E
-    import pool
 
-    res = pool.map_jobs(E.reference_job, [list(o) for o in ops], procs=procs, chunksize=1, maxtasks=None)
-    return {tuple(o): r for o, r in zip(ops, res)}
+    return E.references(ops, procs)
 
 
 def compare(hists, obs, refs):
